@@ -73,6 +73,7 @@ uint64_t __CPROVER_uninterpreted_urem64(uint64_t, uint64_t);
 uint64_t __CPROVER_uninterpreted_mulmod(uint64_t, uint64_t, uint64_t);
 uint64_t __CPROVER_uninterpreted_powmod(uint64_t, uint64_t, uint64_t);
 uint64_t __CPROVER_uninterpreted_gcd(uint64_t, uint64_t);
+_Bool __CPROVER_uninterpreted_issquare(uint64_t);
 #define LL2C_UMUL64(x, y) __CPROVER_uninterpreted_umul64((uint64_t)(x), (uint64_t)(y))
 #define LL2C_UMULOVF64(x, y) __CPROVER_uninterpreted_umulovf64((uint64_t)(x), (uint64_t)(y))
 #define LL2C_UDIV64(x, y) __CPROVER_uninterpreted_udiv64((uint64_t)(x), (uint64_t)(y))
@@ -80,9 +81,11 @@ uint64_t __CPROVER_uninterpreted_gcd(uint64_t, uint64_t);
 #define SPEC_mulmod(a, b, n) __CPROVER_uninterpreted_mulmod((uint64_t)(a), (uint64_t)(b), (uint64_t)(n))
 #define SPEC_powmod(a, b, n) __CPROVER_uninterpreted_powmod((uint64_t)(a), (uint64_t)(b), (uint64_t)(n))
 #define SPEC_gcd(a, b) __CPROVER_uninterpreted_gcd((uint64_t)(a), (uint64_t)(b))
+#define SPECP_issquare(n) __CPROVER_uninterpreted_issquare((uint64_t)(n))
 #endif
 
 #ifdef VF_CBMC
+static uint64_t vf_ghost[8];   /* entry values of the function under contract, for loop invariants that relate the loop state to them */
 #define ASSUME(c) __CPROVER_assume(c)
 #define CHECK(c, name) __CPROVER_assert((c), "POST:" name)
 #ifdef VF_NO_CANARY
